@@ -564,8 +564,8 @@ def _do_extract(raw, i, unitfile, repo_root, out, log, meta, twin=False):
             # (up to the brace matching the anchor's last `{`, plus the `;`) is replaced by an outlined, assumed call.
             (a, e), _n = item.find_anchor(ticks[0], _occ(words))
             mt2 = mask(item.joined())
-            if mt2[e - 1] != "{":
-                raise ExtractError("@outline_stmt: anchor must end with `{`")
+            if mt2[e - 1] not in "{(":
+                raise ExtractError("@outline_stmt: anchor must end with `{` or `(`")
             close = match_bracket(mt2, e - 1)
             k2 = close + 1
             while mt2[k2] in " \n\t":
